@@ -1,9 +1,7 @@
 (* Properties/C16.v — "pod_collect_to_vec always works: rounded-up length, copied prefix, zero tail".
-   C16_zst_target_refuted records the defect of the pinned tree (a zero-sized TARGET type divides by
-   zero); it is kept as a theorem about the model of the pinned code path [pod_collect_to_vec] and
-   is the reason C16_char carries the hypothesis sz B <> 0, exactly as the property's statement does
-   for the length clause.  The repaired crate returns an empty Vec before reaching this path (see
-   known_findings.json); the monitor then demands "never panics" for zero-sized targets too. *)
+   The pinned tree divided by zero for a zero-sized TARGET type (genuine defect, repaired by a
+   "fix:" commit, see known_findings.json): C16_unguarded_count_refuted keeps the refutation of the
+   unguarded computation, C16_total states "never panics" for the repaired function. *)
 From Coq Require Import NArith List Bool String.
 From BM Require Import Base.Outcome Base.Prims Base.Own Base.Layout Model.Alloc Proofs.AllocProofs.
 Import ListNotations.
@@ -20,12 +18,20 @@ Proof. exact collect_char. Qed.
 Theorem C16_count : forall n s, s <> 0 -> collect_count n s = Ret (ceil_div n s).
 Proof. exact collect_count_spec. Qed.
 
-Theorem C16_zst_target_refuted : forall B src, sz B = 0 -> pod_collect_to_vec B src = Panic W_div_zero.
-Proof. exact collect_zst_target_panics. Qed.
+Theorem C16_total : forall B src, exists r, pod_collect_to_vec B src = Ret r.
+Proof. exact collect_total. Qed.
+
+Theorem C16_zst_target : forall B src, sz B = 0 -> pod_collect_to_vec B src = Ret (0, []).
+Proof. exact collect_zst_target. Qed.
+
+Theorem C16_unguarded_count_refuted : forall n, collect_count n 0 = Panic W_div_zero.
+Proof. exact collect_count_unguarded_panics. Qed.
 
 Example C16_nonvacuous : pod_collect_to_vec (mkTy 4 4) [1; 2; 3; 4; 5] = Ret (2, [1; 2; 3; 4; 5; 0; 0; 0]).
 Proof. reflexivity. Qed.
 
 Print Assumptions C16_char.
 Print Assumptions C16_count.
-Print Assumptions C16_zst_target_refuted.
+Print Assumptions C16_total.
+Print Assumptions C16_zst_target.
+Print Assumptions C16_unguarded_count_refuted.
